@@ -185,6 +185,21 @@ func run(c *core.Ctx) int {
 		ecs = append(ecs, ec)
 		cases = append(cases, core.J(ec))
 	}
+	// mixed import sections: a PRNG sample of the signatures again, with globals, a memory and a table
+	// imported in between the host functions and a decoy type 0 (each case runs its plain control first)
+	nPlain := len(ecs)
+	mr := rng.Split()
+	for i, n := 0, c.N(400, 5000); i < n; i++ {
+		ec := ecs[mr.Intn(nPlain)]
+		if i%4 != 0 { // mostly signatures with parameters and a few values
+			for tries := 0; tries < 10 && strings.IndexByte(ec.Sig, '>') < 2; tries++ {
+				ec = ecs[mr.Intn(nPlain)]
+			}
+		}
+		ec.Mixed, ec.Class, ec.Seed = true, "mixed-imports", mr.U64()>>1
+		ecs = append(ecs, ec)
+		cases = append(cases, core.J(ec))
+	}
 	res := core.RunCases(c, "echo", cases, core.ChildOpts{Batch: c.N(12, 24), TimeoutS: 900, RlimitAS: 8 << 30})
 	c.Extra("phase_echo_s", time.Since(c.Start).Seconds())
 
@@ -194,10 +209,10 @@ func run(c *core.Ctx) int {
 	var raceEcs []echoCase
 	rr := rng.Split()
 	for i := 0; i < nRace; i++ {
-		ec := ecs[rr.Intn(len(ecs))]
+		ec := ecs[rr.Intn(nPlain)]
 		if i%3 == 0 { // bias to the large ones
 			for tries := 0; tries < 20 && len(ec.Sig) < 12; tries++ {
-				ec = ecs[rr.Intn(len(ecs))]
+				ec = ecs[rr.Intn(nPlain)]
 			}
 		}
 		ec.K = 12
@@ -254,6 +269,10 @@ func run(c *core.Ctx) int {
 		}
 		calls += br.Calls
 		c.Count("bighost_cases_"+bc.Class, 1)
+		if bc.Mixed {
+			c.Count("bighost_cases_mixed_import_section", 1)
+			c.Count("bighost_calls_to_shadowed_imports", br.CallsShadowed)
+		}
 		c.Count("bighost_calls", br.Calls)
 		c.Count("bighost_calls_to_index_ge_256", br.CallsGE256)
 		c.Count("bighost_host_functions_defined", br.HostFuncs)
@@ -311,6 +330,11 @@ func run(c *core.Ctx) int {
 					c.Inconclusive("watchdog")
 					continue
 				default:
+					if ec.Mixed {
+						c.Violate("mixed-import-section:child-crash:"+r.Crash.Kind, r.Crash.Detail,
+							map[string]any{"case": cases[r.Index], "flavour": flavour, "crash": r.Crash})
+						continue
+					}
 					c.Violate("crash:"+r.Crash.Kind+":"+firstWords(r.Crash.Detail), r.Crash.Detail,
 						map[string]any{"case": cases[r.Index], "flavour": flavour, "crash": r.Crash})
 					continue
@@ -347,6 +371,7 @@ func run(c *core.Ctx) int {
 			c.Count("wasm_judge_value_tests", cr.MaskTests)
 			c.Count("reentrant_calls_from_host", cr.Reentries)
 			c.Count("concurrent_calls", cr.ConcCalls)
+			c.Count("calls_through_mixed_import_guests", cr.MixedCalls)
 			c.Count("allowed_dirty_upper_half_at_host", cr.UpperHost)
 			c.Count("allowed_dirty_upper_half_at_go", cr.UpperGo)
 			for k, v := range cr.UpperGoBy {
@@ -394,7 +419,7 @@ func run(c *core.Ctx) int {
 		}
 	}
 	for _, k := range []string{"calls_style_guest-defined", "calls_form_call", "calls_form_callwithstack", "host_function_calls",
-		"wasm_judge_masks_checked", "reentrant_calls_from_host"} {
+		"wasm_judge_masks_checked", "reentrant_calls_from_host", "calls_through_mixed_import_guests", "bighost_cases_mixed_import_section"} {
 		if c.Counter(k) == 0 {
 			c.Inconclusive("never-reached:" + k)
 		}
